@@ -31,16 +31,25 @@ VARIABLES l, viol, drift, stat,
                     \*  pend: kill requests queued and not executed yet (a request whose
                     \*        transition is CANCELED requested nothing)]
           over,     \* workers whose counted errors exceeded WorkerErrKill
-          deliv     \* worker -> errors delivered for it while tracked (set of pairs)
+          deliv,    \* worker -> errors delivered for it while tracked (set of pairs)
+          ord       \* the order of the two events of a fork: [set: workers SetWorkerState
+                    \* (with a WorkerInfo) has run for, early: workers whose WorkerForkedState
+                    \* ran before that].  Plain sets: the worker records are rebuilt from the
+                    \* log at every line and must not refer to their predecessors (TLC keeps
+                    \* function constructors lazy; the view is <<l>> only).
 
-tvars == <<vars, l, viol, drift, stat, kreq, over, deliv>>
+tvars == <<vars, l, viol, drift, stat, kreq, over, deliv, ord>>
 
 Line == Trace[l]
 
 Stat0 == [cases |-> 0, tx |-> 0, faulted |-> 0, gates |-> 0, predicted |-> 0,
           activations |-> 0, withdrawals |-> 0, kept |-> 0, short |-> 0, stale |-> 0,
           forks |-> 0, forkrejects |-> 0, kills |-> 0, errs |-> 0, errlost |-> 0,
-          overmax |-> 0, wtx |-> 0, unstable |-> 0]
+          overmax |-> 0, wtx |-> 0, unstable |-> 0,
+          \* the two events of one fork in the unusual order: WorkerForkedState ran
+          \* for a worker without a boot entry / SetWorkerState ran for a fork whose
+          \* worker had announced itself already / the map grew in another handler
+          forkedfirst |-> 0, lateset |-> 0, grewoutside |-> 0, forkeddropped |-> 0]
 
 CfgOf(x) == [min |-> x.min, max |-> x.max, warm |-> x.warm, errkill |-> x.errkill,
              gate |-> FALSE, errmulti |-> FALSE]           \* the gates as the code has them
@@ -50,6 +59,7 @@ ResetTo(x) ==
   /\ active' = <<>>
   /\ wk' = [f \in {} |-> NoWorker]
   /\ kreq' = [done |-> {}, pend |-> <<>>] /\ over' = {} /\ deliv' = {}
+  /\ ord' = [set |-> {}, early |-> {}]
 
 TraceInit ==
   /\ l = 2 /\ viol = {} /\ drift = {}
@@ -60,6 +70,7 @@ TraceInit ==
   /\ queue = <<>> /\ norm = NormIdle /\ hb = HbIdle /\ cnt = Cnt0
   /\ bad = {} /\ wit = {} /\ hist = <<>>
   /\ kreq = [done |-> {}, pend |-> <<>>] /\ over = {} /\ deliv = {}
+  /\ ord = [set |-> {}, early |-> {}]
   /\ stat = [Stat0 EXCEPT !.cases = 1]
 
 D(name) == {<<l, name>>}
@@ -164,6 +175,13 @@ EvTx ==
          acc == RunHandlers(c, [wk |-> wk0, q |-> <<>>, norm |-> NormIdle, hb |-> HbIdle,
                                 nf |-> MaxForks, tf |-> 0], ranMap, m, <<>>)
          logged == LoggedMap(x, c)
+         \* the order of the two events of one fork
+         forkedNoBoot == m.k = "FORKED" /\ m.w # 0 /\ Ran(x, "state", "WorkerForked") /\ wk0[m.w].inmap # "boot"
+         forkedFirst == forkedNoBoot /\ m.w \notin ord.set
+         forkedDropped == forkedNoBoot /\ m.w \in ord.set
+         lateSet == m.k = "SET" /\ m.w # 0 /\ m.src = "info" /\ Ran(x, "state", "SetWorker") /\ m.w \in ord.early
+         grew == x.t > x.t0 /\ ~Ran(x, "state", "SetWorker")
+         setInfo == m.k = "SET" /\ m.w # 0 /\ m.src = "info" /\ Ran(x, "state", "SetWorker")
          d == UNION {
                 When(SSet(before) # SSet(active), "tx.continuity"),
                 When(x.t0 # Cardinality(Tracked(wk)), "tx.tracked-continuity"),
@@ -174,6 +192,10 @@ EvTx ==
                 When(~predict /\ ~faulted /\ SSet(before) # SSet(after), "tx.active-untouched"),
                 When(predict /\ allK /\ specH # logH, "tx.handlers"),
                 When(SpecMap(acc.wk) # logged, "tx.workers"),
+                \* Supervisor!MapGrowsOnlyBySet on the logged samples; an entry per
+                \* worker id (a fork tracked under two keys shows as a repeated id)
+                When(grew, "tx.map-grew-outside-SetWorker"),
+                When(Cardinality({x.ws[i].id : i \in 1..Len(x.ws)}) # Len(x.ws), "tx.fork-tracked-twice"),
                 dGate}
          \* ---- the formulas of C15 on the logged values
          prB == SHas(x.before, "PoolReady")
@@ -192,7 +214,13 @@ EvTx ==
                      "GroupsExclusive.PoolNormalized")}
          newOver == {x.ws[i].id : i \in {j \in 1..Len(x.ws) : x.ws[j].errs > c.errkill}}
      IN /\ active' = after
-        /\ wk' = FollowMap(wk0, x, c)
+        \* TLCEval: TLC keeps a function constructor lazy, and the domain of this one is
+        \* built from the domain of its predecessor; with the view <<l>> nothing ever
+        \* normalises it, so a case of some hundred transitions nests that deep and
+        \* overflows the Java stack
+        /\ wk' = TLCEval(FollowMap(wk0, x, c))
+        /\ ord' = [set |-> IF setInfo THEN ord.set \cup {m.w} ELSE ord.set,
+                    early |-> IF forkedFirst THEN ord.early \cup {m.w} ELSE ord.early]
         /\ kreq' = [done |-> IF Ran(x, "state", "KillingWorker") THEN kreq.done \cup {x.w} ELSE kreq.done,
                     pend |-> IF x.op = "add" /\ SHas(x.called, "KillingWorker")
                              THEN SWithout(kreq.pend, x.w) ELSE kreq.pend]
@@ -216,7 +244,11 @@ EvTx ==
                       !.errs = @ + Inc(errCounted),
                       !.errlost = @ + Inc(errCounted /\ ~Ran(x, "state", "ErrWorker")),
                       !.overmax = @ + Inc(x.t > x.max),
-                      !.unstable = @ + Inc(~stable)]
+                      !.unstable = @ + Inc(~stable),
+                      !.forkedfirst = @ + Inc(forkedFirst),
+                      !.lateset = @ + Inc(lateSet),
+                      !.forkeddropped = @ + Inc(forkedDropped),
+                      !.grewoutside = @ + Inc(grew)]
         /\ UNCHANGED <<cfg, queue, norm, hb, cnt, bad, wit, hist>>
 
 (* a kill request / an error / a kill confirmation reached the queue          *)
@@ -224,13 +256,13 @@ EvQ ==
   /\ Line.ev = "q"
   /\ kreq' = IF Line.state = "KillingWorker" /\ Line.op = "add"
               THEN [kreq EXCEPT !.pend = Append(@, Line.w)] ELSE kreq
-  /\ UNCHANGED <<vars, viol, drift, stat, over, deliv>>
+  /\ UNCHANGED <<vars, viol, drift, stat, over, deliv, ord>>
 
 EvKill ==
   /\ Line.ev = "kill"
   /\ kreq' = [kreq EXCEPT !.done = @ \cup {Line.w}]
   /\ stat' = [stat EXCEPT !.kills = @ + 1]
-  /\ UNCHANGED <<vars, viol, drift, over, deliv>>
+  /\ UNCHANGED <<vars, viol, drift, over, deliv, ord>>
 
 (* a worker machine's transition: the work-status group                       *)
 EvWtx ==
@@ -238,7 +270,7 @@ EvWtx ==
   /\ viol' = viol \cup When(Cardinality(SSet(Line.after) \cap GroupWorkStatus) > 1,
                             "GroupsExclusive.WorkStatus")
   /\ stat' = [stat EXCEPT !.wtx = @ + 1]
-  /\ UNCHANGED <<vars, drift, kreq, over, deliv>>
+  /\ UNCHANGED <<vars, drift, kreq, over, deliv, ord>>
 
 (* end of a case (after a settle): the kill formulas                          *)
 EvEnd ==
@@ -248,17 +280,17 @@ EvEnd ==
          owed2 == {p[1] : p \in {q \in deliv : q[2] > cfg.errkill /\ ~asked(q[1])}}
      IN viol' = viol \cup When(owed1 # {}, "KillRequested")
                      \cup When(owed2 # {}, "KillRequestedDelivered")
-  /\ UNCHANGED <<vars, drift, stat, kreq, over, deliv>>
+  /\ UNCHANGED <<vars, drift, stat, kreq, over, deliv, ord>>
 
 EvOther ==
   /\ Line.ev \in {"fork", "forkret", "env"}
-  /\ UNCHANGED <<vars, viol, drift, stat, kreq, over, deliv>>
+  /\ UNCHANGED <<vars, viol, drift, stat, kreq, over, deliv, ord>>
 
 Done ==
   /\ l = Len(Trace) + 1
   /\ PrintT(<<"RESULT", ToJson([lines |-> Len(Trace), viol |-> viol, drift |-> drift,
                                 stat |-> stat])>>)
-  /\ UNCHANGED <<vars, viol, drift, stat, kreq, over, deliv>>
+  /\ UNCHANGED <<vars, viol, drift, stat, kreq, over, deliv, ord>>
 
 TraceNext ==
   \/ /\ l <= Len(Trace)
